@@ -188,9 +188,12 @@ Section Step.
   (* ---- macros ---------------------------------------------------------- *)
 
   (** [eval_ident]: the argument is run on an empty interpreter without
-      resolution and must yield an identifier. *)
+      resolution and must yield an identifier.  The empty interpreter has no bindings at all; whether
+      it refuses run-time inputs the hard way depends on whether the compiler is folding (a flag of
+      the thread in the implementation), which is what the clock field records. *)
+  Definition ident_env : env := mkEnv false [] [] [] false (e_now E).
   Definition eval_ident (c : code) : M (value + bytes) :=
-    fun lg => match rs empty_env c false O lg with
+    fun lg => match rs ident_env c false O lg with
               | (ROk (VIdent s), lg') => (ROk (inr s), lg')
               | (ROk _, lg') => (ROk (inl (VErr EMisc)), lg')
               | (RErr e, lg') => (ROk (inl (VErr e)), lg')
@@ -564,8 +567,8 @@ Fixpoint run (fuel : nat) (E : env) (c : code) (resolve : bool) (d : nat) : M va
 
 (** [CelContext::exec]: run the named program of the context. *)
 (** what a caller can see of the log: the calls of its own functions.  The compiler's memory marks are
-    not calls (an empty interpreter, as the macros use for their identifier arguments, has no clock either,
-    so the model leaves a mark there at run time too, where nothing reads it). *)
+    not calls (at run time none is left: the macros' interpreter for their identifier arguments inherits
+    the folding state, see [ident_env]). *)
 Definition visible_log (lg : log) : log := filter (fun e => negb (is_runtime_mark e)) lg.
 
 Definition exec (fuel : nat) (E : env) (name : bytes) : res value * log :=
